@@ -422,6 +422,9 @@ class Stats:
                 "total": self.sat + self.unsat + self.unknown, "solver_s": round(self.solver_s, 3)}
 
 
+_XC = [0]
+
+
 class Q:
     """one z3 solver, push/pop per query, with statistics"""
 
@@ -467,8 +470,8 @@ class Q:
         xdir = os.environ.get("VERIF_XCHECK_DIR")
         if xdir and not aux and res in ("sat", "unsat"):
             # second opinion (thorough tier): a deterministic 1-in-16 sample of all queries and every 64th SAT one are dumped
-            self._xc = getattr(self, "_xc", 0) + 1
-            if self._xc % 16 == 0:
+            _XC[0] += 1
+            if _XC[0] % 16 == 0:
                 try:
                     txt = self.s.to_smt2()
                     if len(txt) < 200000:
